@@ -15,6 +15,8 @@ import hypothesis.strategies as st
 import numpy as np
 import scipy.stats as ss
 
+from pbt import gen
+
 REL = 1.0e-6          # relative margin kept on every threshold comparison (DESIGN 1.4)
 COND = 1.0e-8         # largest tolerated relative uncertainty of var1/n1+var2/n2 computed from sum/sumsq
 EPS = float(np.finfo(float).eps)
@@ -64,6 +66,10 @@ def cases(draw, max_leaves=8, max_genes=24):
     n_leaves = draw(st.sampled_from([n for n in (2, 3, 3, 4, 4, 5, 5, 6, 6, 7, 8, 9, 10) if n <= max_leaves]))
     names = draw(leaf_names(n_leaves))
     n_genes = draw(st.integers(4, max_genes))
+    # a long gene list with few markers, some of them far down the list (index beyond a one-byte counter)
+    long_list = draw(st.integers(0, 9)) == 0
+    if long_list:
+        n_genes = draw(st.sampled_from([257, 270, 300, 330]))
     size_mode = draw(st.sampled_from(['large', 'large', 'mixed', 'mixed', 'small']))
     if size_mode == 'large':
         sizes = [draw(st.integers(6, 12)) for _ in range(n_leaves)]
@@ -73,7 +79,15 @@ def cases(draw, max_leaves=8, max_genes=24):
         sizes = [draw(st.sampled_from([1, 2, 2, 3, 5, 8, 12])) for _ in range(n_leaves)]
     strength = draw(st.sampled_from(['strong', 'strong', 'strong', 'weak', 'absent']))
     pool = draw(st.sampled_from(['all', 'all', 'varying']))
-    kinds = [draw(st.sampled_from(GENE_KINDS if pool == 'all' else VARYING_KINDS)) for _ in range(n_genes)]
+    if long_list:
+        quiet_kind = draw(st.sampled_from(['noise', 'const_same', 'all_zero']))
+        kinds = [quiet_kind] * n_genes
+        for pos in draw(st.lists(st.integers(0, n_genes - 1), min_size=3, max_size=14, unique=True)):
+            kinds[pos] = draw(st.sampled_from(['signal', 'signal', 'signal', 'weak', 'partial', 'wide']))
+        for pos in draw(st.lists(st.integers(256, n_genes - 1), min_size=1, max_size=4, unique=True)):
+            kinds[pos] = 'signal'
+    else:
+        kinds = [draw(st.sampled_from(GENE_KINDS if pool == 'all' else VARYING_KINDS)) for _ in range(n_genes)]
     if strength == 'absent':
         kinds = [k if k not in ('signal', 'weak', 'partial', 'wide') else 'noise' for k in kinds]
     elif strength == 'weak':
@@ -90,7 +104,7 @@ def cases(draw, max_leaves=8, max_genes=24):
         kinds[anchors[1]] = 'anchor_odd'
         if dup and dup[1] in anchors:
             dup = None
-    genes = [f'g{i}' for i in draw(st.permutations(list(range(n_genes))))]
+    genes = [f'g{i}' for i in draw(gen.shuffled(list(range(n_genes))))]
     # taxonomy: one level, or two levels with a drawn grouping of the leaves
     if draw(st.booleans()):
         n_par = draw(st.integers(1, min(3, n_leaves)))
@@ -102,10 +116,14 @@ def cases(draw, max_leaves=8, max_genes=24):
         tree = {'hierarchy': ['cluster'], 'cluster': {nm: [] for nm in names}}
     gl = None
     if draw(st.integers(0, 2)) == 0:
-        keep = [g for i, g in enumerate(genes) if i in anchors or draw(st.integers(0, 3)) > 0]
+        if long_list:
+            kp = draw(st.integers(1, 3))
+            keep = [g for i, g in enumerate(genes) if i in anchors or (i * 7 + kp) % 4 > 0]
+        else:
+            keep = [g for i, g in enumerate(genes) if i in anchors or draw(st.integers(0, 3)) > 0]
         if not keep:
             keep = [genes[0]]
-        gl = list(draw(st.permutations(keep + ['not_a_reference_gene'])))
+        gl = list(draw(gen.shuffled(keep + ['not_a_reference_gene'])))
     # the p-value-mask route is skipped in part of the cases that contain a cluster of fewer than two cells
     routes = ['std', 'pmask']
     if min(sizes) < 2 and draw(st.integers(0, 2)) > 0:
